@@ -11,6 +11,7 @@ mod props;
 mod util;
 mod wacgen;
 mod witgen;
+mod witness;
 
 struct StderrLog;
 impl log::Log for StderrLog {
